@@ -1,9 +1,9 @@
 (** C03 -- property theorems only.  Model: coq/C03/MulgridIO.v ([write], [read], [canon],
     [wf_g]) over the regenerated tables Gen.GenTables / Gen.GenMulgrid. *)
-From Coq Require Import Ascii String List Bool Arith ZArith NArith.
+From Coq Require Import Ascii String List Bool Arith ZArith NArith QArith.
 From PTBase Require Import Exn PyStr PyNum PyVal Fmt FixedFormat.
 From Gen Require Import GenTables GenMulgrid.
-From P Require Import Flt Lines MulgridIO RoundTrip Header Idem Fields Natural Canon Feet Rounding RealIdem NatIdem Examples NameLists SciIdem HdrIdem.
+From P Require Import Flt Lines MulgridIO RoundTrip Header Idem Fields Natural Canon Feet Rounding RealIdem NatIdem Examples NameLists SciIdem HdrIdem HdrOk ErrBound Margin Feet2.
 Import ListNotations.
 
 (** ** finite obligations over the regenerated tables *)
@@ -187,10 +187,58 @@ Theorem feet_roundtrip : forall g b, wf g = true -> h_unit (g_hdr g) = feet ->
 Proof. exact feet_round_trip. Qed.
 Print Assumptions feet_roundtrip.
 
+(** ** round 4: no run of the reader left in the hypotheses *)
+(** the header line reads back: %5s, %1d/%2d (non-negative), %10.2e (float() of the printed text is the
+    printed decimal), %10.2f fields that fit, convention in range, unit type and block order known *)
+Theorem header_reads_back_arith : forall h, hdr_arith h = true -> hdr_ok h = true.
+Proof. exact hdr_arith_ok. Qed.
+Print Assumptions header_reads_back_arith.
+(** the round trip for the class [awf]: header by [hdr_arith], every record value fits its field *)
+Theorem mulgrid_read_write_arith : forall g b, awf g = true -> write g = Ok b -> read b = Ok (canon g).
+Proof. exact read_write_roundtrip_arith. Qed.
+Print Assumptions mulgrid_read_write_arith.
+(** how far a coordinate moves: written as x / scale with p decimals, re-read and multiplied by
+    the scale (four correctly rounded operations, |x| / scale < 2^27), sign kept *)
+Theorem coordinate_error : forall f s x, ft f = Tf -> (1 <= prec f)%Z -> scale_ok s = true -> mag_ok s x = true ->
+  (0 <= dm (rt_num f s s x))%Z /\ dneg (rt_num f s s x) = dneg x /\
+  (Vq x - (Vq s * (1#2) / inject_Z (pow10 (prec f)) + e22) <= Vq (rt_num f s s x) <= Vq x + (Vq s * (1#2) / inject_Z (pow10 (prec f)) + e22))%Q.
+Proof. exact rt_error. Qed.
+Print Assumptions coordinate_error.
+(** every comparison the name lists make keeps its outcome when the two elevations are the same
+    double or differ by more than scale/100 + 2^-21 ([sep_ok]) *)
+Theorem comparisons_kept_beyond_margin : forall g sc, hdr_ok (g_hdr g) = true -> unit_scale_of (h_unit (g_hdr g)) = Ok sc ->
+  str_eqb (h_type (canon_header (g_hdr g))) (s2l supported_type) = true ->
+  names_canonical g = true -> sep_ok sc g = true -> cmp_ok g = true.
+Proof. exact sep_cmp_ok. Qed.
+Print Assumptions comparisons_kept_beyond_margin.
+Theorem name_lists_equal_margin : forall g, names_hyp g = true ->
+  block_name_list (geom_of (canon g)) = block_name_list (geom_of g) /\
+  block_connection_name_list (geom_of (canon g)) = block_connection_name_list (geom_of g).
+Proof. exact name_lists_margin. Qed.
+Print Assumptions name_lists_equal_margin.
+(** feet/metres (any unit scale): nodes, specified centres, non-default surfaces, layer bottoms, well
+    track points of the re-read geometry are within scale * 10^-p / 2 + 2^-22 metres of the originals;
+    for FEET that is 1.525 mm (2 decimals) and 15.25 mm (wells, 1 decimal) *)
+Theorem coordinates_close : forall g sc, hdr_ok (g_hdr g) = true -> unit_scale_of (h_unit (g_hdr g)) = Ok sc ->
+  str_eqb (h_type (canon_header (g_hdr g))) (s2l supported_type) = true -> coords_mag sc g = true ->
+  Forall2 (fun n n' => close sc (sp "node" 1) (n_x n) (n_x n') /\ close sc (sp "node" 2) (n_y n) (n_y n')) (g_nodes g) (g_nodes (canon g)) /\
+  Forall2 (fun c c' => opt_close sc (sp "column" 3) (option_map fst (c_centre c)) (option_map fst (c_centre c')) /\
+                       opt_close sc (sp "column" 4) (option_map snd (c_centre c)) (option_map snd (c_centre c')) /\
+                       opt_close sc (sp "surface" 1) (c_surf c) (c_surf c')) (g_cols g) (g_cols (canon g)) /\
+  Forall2 (fun l l' => close sc (sp "layer" 1) (l_bottom l) (l_bottom l')) (g_lays g) (g_lays (canon g)) /\
+  Forall2 (fun w w' => Forall2 (fun p p' => close sc (sp "well" 1) (fst (fst p)) (fst (fst p')) /\ close sc (sp "well" 2) (snd (fst p)) (snd (fst p')) /\
+                                            close sc (sp "well" 3) (snd p) (snd p')) (w_pos w) (w_pos w')) (g_wells g) (g_wells (canon g)).
+Proof. exact canon_coordinates_close. Qed.
+Print Assumptions coordinates_close.
+Theorem feet_error_numbers : (err feet_scale (sp "node" 1) <= 1525 # 1000000 /\ err feet_scale (sp "well" 1) <= 1525 # 100000)%Q.
+Proof. exact feet_errors. Qed.
+Print Assumptions feet_error_numbers.
+
 (** ** the hypotheses are satisfiable: a concrete geometry in feet with a specified centre,
     a raised surface, a layer centred on 0.0 and a well *)
 Theorem hypotheses_satisfiable : wf ex_geo = true /\ nwf ex_geo = true /\ idem_ok ex_geo = true /\
   (h_unit (g_hdr ex_geo) = feet /\ str_eqb (h_type (canon_header (g_hdr ex_geo))) (s2l supported_type) = true) /\
-  aidem_ok ex_geo2 = true /\ (hdr_ok (g_hdr ex_geo2) = true /\ names_canonical ex_geo2 = true /\ cmp_ok ex_geo2 = true).
-Proof. exact (conj ex_geo_wf (conj ex_geo_nwf (conj ex_geo_idem (conj ex_geo_feet (conj ex_geo2_aidem ex_geo2_names))))). Qed.
+  aidem_ok ex_geo2 = true /\ (hdr_ok (g_hdr ex_geo2) = true /\ names_canonical ex_geo2 = true /\ cmp_ok ex_geo2 = true) /\
+  (awf ex_geo2 = true /\ names_hyp ex_geo2 = true /\ coords_mag feet_scale ex_geo2 = true).
+Proof. exact (conj ex_geo_wf (conj ex_geo_nwf (conj ex_geo_idem (conj ex_geo_feet (conj ex_geo2_aidem (conj ex_geo2_names ex_geo2_arith)))))). Qed.
 Print Assumptions hypotheses_satisfiable.
